@@ -26,8 +26,11 @@ def _depth(task, f):
 def _none_deref(task, f):
     return "'NoneType' object has no attribute" in f["msg"]
 
+def _none_push_child(task, f):
+    return "has no attribute 'push_child'" in f["msg"]
+
 def _marked_section(task, f):
-    return b"<!" in task["data"] and "expected" in f["msg"]
+    return b"<!" in task["data"]
 
 def _br_styled(task, f):
     return re.search(rb"<br\b[^>]*\s[\w:.-]+\s*=|<br\b[^>]*>\s*<set\b", task["data"]) is not None
@@ -39,11 +42,11 @@ def _empty_text(task, f):
 # id, regex over "<Type>|<site>" (site = innermost-first ttconv frames with qualified names), stages it may surface in
 # (regex over the stage label), optional predicate on the input
 FINDINGS = [
-    ("ruby-inactive-annotation", r"^ValueError\|model\.py:(Ruby|Rtc)\.push_children<-isd\.py:ISD\._process_element<-", r".*", None),
+    ("ruby-inactive-annotation", r"^ValueError\|model\.py:(Ruby|Rtc)\.push_children<-isd\.py:(ISD\._process_element|_clone_doc_with_one_region\._copy_content_element)<-", r".*", None),
     ("recursion-deep-nesting", r"^RecursionError\|", r".*", _depth),
     ("vtt-empty-file", r"^AttributeError\|vtt/reader\.py:to_model$", r"^read$", _empty_text),
     ("vtt-cue-without-payload", r"^UnboundLocalError\|vtt/reader\.py:to_model$", r"^read$", None),
-    ("vtt-rt-outside-ruby", r"^AttributeError\|vtt/reader\.py:_TextCueParser\._handle_starttag<-", r"^read$", None),
+    ("vtt-rt-outside-ruby", r"^AttributeError\|vtt/reader\.py:_TextCueParser\._handle_starttag<-", r"^read$", _none_push_child),
     ("vtt-stray-end-tag", r"^(TypeError\|model\.py:(Div|Body)\.push_child<-|AttributeError\|)vtt/reader\.py:_TextCueParser\.(_handle_string|_handle_starttag|_handle_ts|_handle_endtag|_make_span)<-", r"^read$", None),
     ("vtt-ruby-structure", r"^(RuntimeError\|(model\.py:\w+\.push_child<-)?|TypeError\|model\.py:(Span|Rt|Rb|Rbc|Rtc|P)\.push_child<-)vtt/reader\.py:_TextCueParser\.", r"^read$", None),
     ("vtt-percentage-overflow", r"^OverflowError\|vtt/reader\.py:parse_vtt_pct<-", r"^read$", None),
@@ -54,7 +57,7 @@ FINDINGS = [
     ("imsc-tt-extent-overflow", r"^OverflowError\|imsc/attributes\.py:ExtentAttribute\.extract<-imsc/elements\.py:TTElement\.from_xml<-", r"^read$", None),
     ("imsc-content-inside-set", r"^TypeError\|model\.py:ContentElement\.set_space<-imsc/elements\.py:ContentElement\.ParsingContext\.process_space_attribute<-", r"^read$", None),
     ("srt-markup-declaration", r"^AssertionError\|srt/reader\.py:to_model$", r"^read$", _marked_section),
-    ("isd-style-on-br", r"^(ValueError\|isd\.py:_compute_length<-isd\.py:StyleProcessors\.\w+\.compute<-|AttributeError\|isd\.py:StyleProcessors\.Padding\.compute<-)isd\.py:ISD\._compute_styles<-", r".*", _br_styled),
+    ("isd-style-on-br", r"^(ValueError|AttributeError)\|(isd\.py:_compute_length<-)?isd\.py:StyleProcessors\.\w+\.compute<-isd\.py:ISD\._compute_styles<-", r".*", _br_styled),
     ("imsc-zero-rate", r"^ZeroDivisionError\|(imsc/utils\.py:parse_time_expression<-)?imsc/attributes\.py:\w+\.extract<-", r"^read$", None),
     ("stl-bad-tcp", r"^AttributeError\|stl/datafile\.py:DataFile\.__init__<-", r"^read$", None),
     ("stl-bad-mnr", r"^AttributeError\|stl/datafile\.py:DataFile\.get_max_row_count<-stl/datafile\.py:DataFile\.process_tti_block<-", r"^read$", None),
@@ -65,6 +68,7 @@ FINDINGS = [
     ("negative-begin-unwritable", r"^ValueError\|time_code\.py:ClockTime\.from_seconds<-imsc/attributes\.py:to_time_format<-", r"imsc", None),
     ("writer-time-overflow", r"^OverflowError\|((srt/writer\.py:SrtContext|vtt/writer\.py:VttContext)\.add_isd<-|time_code\.py:\w+\.\w+<-(time_code\.py:\w+\.\w+<-)*imsc/attributes\.py:to_time_format<-)", r"(srt|vtt|imsc)", None),
     ("cue-shorter-than-a-millisecond", r"^ValueError\|(srt/paragraph\.py:SrtParagraph|vtt/cue\.py:VttCue)\.to_string<-", r"(srt|vtt)", None),
+    ("imsc-writer-aspect-ratio-overflow", r"^OverflowError\|imsc/attributes\.py:DisplayAspectRatioAttribute\.set<-", r"imsc", None),
     ("imsc-writer-special-values", r"^AttributeError\|imsc/style_properties\.py:StyleProperties\.\w+\.(from_model|has_px)<-", r"imsc", None),
     ("lcd-bg-color-without-body", r"^TypeError\|filters/doc/lcd\.py:_apply_bg_color<-filters/doc/lcd\.py:LCDDocFilter\.process$", r"^lcd", None),
     ("lcd-position", r"^(AttributeError|AssertionError)\|isd\.py:StyleProcessors\.Position\.compute<-filters/doc/lcd\.py:LCDDocFilter\.process$", r"^lcd", None),
@@ -103,8 +107,12 @@ def window(rng, fmt, data, max_bytes=1500):
     k = rng.randrange(1, len(blocks)); n = rng.randrange(1, 6)
     return sep.join(blocks[:1] + blocks[k:k + n]) + sep
 
-def make_tasks(rng, n_per_reader, corp_files, depths, corp):
+def make_tasks(rng, n_per_reader, corp_files, depths, corp, matrix=0):
     tasks = []
+    if matrix:
+        m = list(G.style_matrix())
+        for el, data in (m if matrix >= len(m) else rng.sample(m, matrix)):
+            tasks.append(dict(fmt="imsc", kind="style-matrix", stream="style-matrix", data=data))
     for fmt in G.GENERATORS:
         for name, data in corp_files[fmt]:
             tasks.append(dict(fmt=fmt, kind="corpus", stream="corpus", data=data if len(data) <= 4000 else window(rng, fmt, data, 4000)))
@@ -132,19 +140,42 @@ def _work(batch):
     out = []
     for t in batch:
         t0 = time.time()
-        r = R.run_input(t["fmt"], t["data"], t["cfg"], seed=t["seed"], time_limit=t.get("limit", 60), light=t.get("light", False))
+        r = R.run_input(t["fmt"], t["data"], t["cfg"], seed=t["seed"], time_limit=t.get("limit", 60))
         r["i"] = t["i"]; r["dt"] = time.time() - t0
         out.append(r)
     return out
 
+def _isolated(t):
+    """one input in a process of its own: a crash of the interpreter is observed instead of taking the pool down"""
+    import multiprocessing as mp
+    ctx = mp.get_context("fork")
+    rx, tx = ctx.Pipe(duplex=False)
+    def child():
+        try: tx.send(_work([t])[0])
+        finally: tx.close()
+    p = ctx.Process(target=child); p.start(); tx.close()
+    r = None
+    try:
+        if rx.poll(t.get("limit", 60) * 3 + 60): r = rx.recv()
+    except (EOFError, OSError):
+        r = None
+    p.join(5)
+    if p.is_alive(): p.kill(); p.join()
+    if r is None:
+        r = dict(i=t["i"], outcome="internal:ProcessDied", fails=[], trace=None, stats={}, dt=0,
+                 read=dict(kind="internal", type="ProcessDied", site="(process)", msg=f"worker process died (exit code {p.exitcode})", stage="read"))
+    return r
+
 def run_pool(run, tasks, batch=20):
-    """-> {i: result}; a worker that dies (segfault, OOM kill) is a violation of 'terminates with a documented outcome'"""
+    """-> {i: result}.  A worker that dies (segfault, OOM kill) breaks the pool: the unfinished batches are re-run in a fresh pool one
+    input per batch, and what is still unfinished after that one input per process, so that the culprit is identified and reported
+    (a process that dies is a violation of 'terminates with a documented outcome')."""
     from concurrent.futures import ProcessPoolExecutor
     from concurrent.futures.process import BrokenProcessPool
     order = list(tasks); random.Random(1).shuffle(order)
-    batches = [order[j:j + batch] for j in range(0, len(order), batch)]
-    results = {}; pending = batches
-    for attempt in range(3):
+    pending = [order[j:j + batch] for j in range(0, len(order), batch)]
+    results = {}
+    for attempt in range(2):
         if not pending: break
         broken = []
         ex = ProcessPoolExecutor(C.NCPU)
@@ -155,16 +186,11 @@ def run_pool(run, tasks, batch=20):
             except BrokenProcessPool:
                 broken.append(b)
             except Exception as e:                         # harness failure: fail closed
-                run.violation(f"harness worker failed: {type(e).__name__}: {e}", dict(kind="harness"), False); broken = []; break
+                run.violation(f"harness worker failed: {type(e).__name__}: {e}", dict(kind="harness"), False)
         ex.shutdown(wait=False, cancel_futures=True)
-        # re-run the batches of a broken pool one input per batch so that the culprit is isolated
-        pending = [[t] for b in broken for t in b] if attempt == 0 else [b for b in broken]
-        if attempt >= 1:
-            for b in broken:
-                for t in b:
-                    results[t["i"]] = dict(i=t["i"], outcome="internal:ProcessDied", read=dict(kind="internal", type="ProcessDied", site="(process)", msg="worker process died", stage="read"),
-                                           fails=[], trace=None, stats={}, dt=0)
-            pending = []
+        pending = [[t] for b in broken for t in b]
+    for b in pending:
+        for t in b: results[t["i"]] = _isolated(t)
     return results
 
 
@@ -287,7 +313,7 @@ def main():
     corp = G.corpus(C.REPO)
     per_round = 10000
     rounds = max(1, (n + per_round - 1) // per_round)
-    run.log(f"{n} generated inputs per reader in {rounds} round(s) + corpus {sum(len(v) for v in corp.values())} files + depth stream {len(depths)} per reader; "
+    run.log(f"{n} generated inputs per reader in {rounds} round(s) + corpus {sum(len(v) for v in corp.values())} files + depth stream {len(depths)} per reader + IMSC style x element matrix ({'all 3 240' if thorough else 'sample of 400'}); "
             f"readers and pipeline run on {C.NCPU} processes")
     outcome_hist = collections.Counter(); kind_hist = collections.Counter(); stream_hist = collections.Counter(); fmt_hist = collections.Counter()
     known_hits = collections.Counter(); unmatched = collections.defaultdict(list); stage_fail_hist = collections.Counter()
@@ -297,7 +323,7 @@ def main():
     next_id = 0
     for k in range(rounds):
         n_k = min(per_round, n - k * per_round)
-        tasks = make_tasks(run.rng, n_k, corp if k == 0 else {f: [] for f in G.GENERATORS}, depths if k == 0 else [], corp)
+        tasks = make_tasks(run.rng, n_k, corp if k == 0 else {f: [] for f in G.GENERATORS}, depths if k == 0 else [], corp, matrix=(10**6 if thorough else 400) if k == 0 else 0)
         for t in tasks: t["i"] += next_id
         next_id += len(tasks)
         results = run_pool(run, tasks)
@@ -332,9 +358,15 @@ def main():
         run.violation(f"{missing} inputs produced no result (pool failure)", dict(kind="harness", missing=missing), False)
 
     # ---- everything not covered by a listed finding is a violation, reported with the minimised input --------
+    slow = []
     for key in sorted(unmatched):
         items = sorted(unmatched[key], key=lambda x: x[:2])
         size, i, f = items[0]; t = by_i[i]
+        if f["type"] == "Timeout":
+            # the machine may just be busy: a time-out counts only if the input still does not finish with five times the limit, alone
+            again = [R.run_input(by_i[j]["fmt"], by_i[j]["data"], by_i[j]["cfg"], seed=by_i[j]["seed"], time_limit=300, observe=False) for _, j, _ in items[:3]]
+            if not any(g["type"] == "Timeout" for a in again for g in R.failures(a)):
+                slow.append(dict(format=t["fmt"], kind=t["kind"], bytes=len(t["data"]), stage=f["stage"])); continue
         data, n_ev = shrink(t, key, budget_s=60 if thorough else 30)
         fid = match_finding(t, f)
         run.violation(f"{t['fmt']} input ({t['kind']}, reader config {R.READER_CFGS[t['fmt']][t['cfg']]}): stage {f['stage']} raised {f['type']} at {f['site']}: {f['msg']!r}; "
@@ -345,7 +377,7 @@ def main():
     # ---- guard models vs code --------------------------------------------------------------------------------
     g = guards18.correspondence(run, kept_tasks, kept_results, spec_rows, thorough)
 
-    if (not proofs_ok or g["broken"]) and not unmatched:
+    if (not proofs_ok or g["broken"]) and len(unmatched) == len(slow):
         what = []
         if not proofs_ok: what.append("theorems of coq/Properties/C18.v no longer check: " + getattr(run, "proof_log", "")[-600:])
         what += g["broken"]
@@ -353,7 +385,7 @@ def main():
                                                    first_disagreements=g.get("first", [])[:10]), found_input=False)
 
     samples = []
-    for st in ("grammar", "grammar+mutation", "corpus+mutation", "random", "depth"):
+    for st in ("grammar", "grammar+mutation", "corpus+mutation", "random", "depth", "style-matrix"):
         if st in samples_by_stream:
             t, r = samples_by_stream[st]
             samples.append(dict(format=t["fmt"], stream=st, mutation=t["kind"], reader_config=R.READER_CFGS[t["fmt"]][t["cfg"]], input=show(t["data"], 240),
@@ -369,7 +401,7 @@ def main():
         samples=samples, inputs_per_format=dict(fmt_hist), inputs_per_stream=dict(stream_hist), mutation_kinds=dict(kind_hist),
         outcome_histogram=dict(sorted(outcome_hist.items())), documents_returned=docs, snapshots_taken=snapshots,
         failures_by_stage_and_type=dict(sorted(stage_fail_hist.items())), known_finding_hits=dict(sorted(known_hits.items())),
-        unlisted_failure_signatures=len(unmatched), cpu_seconds_per_format={k: round(v, 1) for k, v in cpu.items()},
+        unlisted_failure_signatures=len(unmatched) - len(slow), slow_inputs_over_60s_that_finish_within_300s=slow, cpu_seconds_per_format={k: round(v, 1) for k, v in cpu.items()},
         depth_stream=sorted(set(depths)), guard_correspondence=g["summary"])
     stale = [fid for fid, *_ in FINDINGS if fid not in known_hits and any(x["id"] == fid for x in run.findings) and fid not in run.known_printed]
     if stale: run.cov["findings_not_triggered_by_generated_inputs"] = stale
